@@ -39,7 +39,7 @@ impl Observer for Obs {
 }
 
 pub fn run(run: &mut Run) -> &'static str {
-    let cases = run.tier.pick(80_000, 4_000_000);
+    let cases = run.tier.pick(500_000, 10_000_000);
     run.proptest_part("histories", RULE, hist_case(4..200), cases, |case: &HistCase, st: &mut Stats| {
         let mut obs = Obs;
         let mut cfg = Config::search_like(60);
